@@ -97,7 +97,8 @@ ExcKinds == {"task_raised",        \* raised inside an asynq task and caught by 
              "prepared",           \* qcore prepare_for_reraise: has _traceback, no _task
              "task_only",          \* has _task but no _traceback
              "tb_none",            \* _traceback attribute is None
-             "base",               \* a BaseException subclass that is not an Exception
+             "base",               \* a BaseException subclass that is not an Exception, raised and caught
+             "base_new",           \* ... constructed, never raised
              "none"}               \* error is None
 Cells == [exc : ExcKinds, tb : {"no", "yes"}, filter : {"on", "off"}, highlight : {"on", "off"}]
 NoCell == [exc |-> "-", tb |-> "-", filter |-> "-", highlight |-> "-"]
@@ -121,7 +122,7 @@ Step == /\ kind # "format_error" /\ Len(hist) < Depth
 
 FormatError == /\ kind = "format_error" /\ hist = <<>>
                /\ st' = "done"
-               /\ hist' = <<[op |-> "format_error", st |-> "done", res |-> IF cell.exc = "none" THEN <<"none">> ELSE <<"str">>]>>
+               /\ hist' = <<[op |-> "format_error", st |-> "done", res |-> IF cell.exc = "none" THEN <<"none">> ELSE <<"str", "names">>]>>     \* faithful: the text names the exception (class and message)
                /\ UNCHANGED <<kind, val, cell>>
 
 Next == Step \/ FormatError
@@ -129,7 +130,7 @@ Spec == Init /\ [][Next]_vars
 
 (* ---- on the model ---- *)
 DiagnosticsTotal == \A n \in 1..Len(hist) : (kind # "format_error" /\ val \in Ordinary \cup {"-"}) => hist[n].res = <<"ok">>
-FormatErrorTotal == (kind = "format_error" /\ hist # <<>>) => hist[1].res \in {<<"str">>, <<"none">>} /\ (hist[1].res = <<"none">> <=> cell.exc = "none")
+FormatErrorTotal == (kind = "format_error" /\ hist # <<>>) => hist[1].res \in {<<"str", "names">>, <<"none">>} /\ (hist[1].res = <<"none">> <=> cell.exc = "none")
 StateDeclared == kind # "format_error" => st \in StatesOf(kind) \cup {"none"}
 (* every declared state is reachable from "none" (so every (kind, state) pair is visited when Depth is large enough) *)
 RECURSIVE Reach(_, _)
